@@ -260,7 +260,7 @@ Lemma merge_child_nodup pl dl gl :
 Proof.
   intros (_ & _ & U) Np Nd p cs Hin. unfold merge_level in Hin. apply in_map_iff in Hin.
   destruct Hin as ([q cs0] & E & Hin). cbn [fst snd] in E. inversion E; subst.
-  apply NoDup_flat_map; [apply (Np q cs0 Hin) | intros d _; apply children_of_nodup; exact Nd|].
+  apply NoDup_flat_map; [apply (Np _ _ Hin) | intros d _; apply children_of_nodup; exact Nd|].
   intros d d' _ _ Hne g Hg Hg'. apply Hne. apply (U d d' g); apply children_of_lists; assumption.
 Qed.
 
